@@ -287,3 +287,18 @@ func finish(verifDir string, prop *Property, tier string, seed int, obs []*Ob, n
 	}
 	return 0
 }
+
+// closureScope: the named anchor functions together with their private helpers (functions that
+// an extract-function refactoring split off them; inline.go).
+func (c *Ctx) closureScope(keys ...string) func(*Func) bool {
+	set := map[*Func]bool{}
+	for _, k := range keys {
+		if f := c.P.Funcs[k]; f != nil {
+			set[f] = true
+			for _, h := range c.P.privateHelpers(f) {
+				set[h] = true
+			}
+		}
+	}
+	return func(f *Func) bool { return set[f] }
+}
